@@ -5,7 +5,7 @@ import json
 import random
 import shutil
 
-from ..common import (REPO, WORK, Report, cbool, clist, cstr, decide, esc, run_case_shards, run_impl,
+from ..common import (REPO, WORK, Report, cbool, chex, clist, cstr, decide, esc, run_case_shards, run_impl,
                       standard_proof_part, write_replay)
 
 PROP = "C17"
@@ -373,9 +373,9 @@ def split_problem(rng, prob, n):
     return views
 
 
-def render_problem(rng, prob, view=None, overrides=None):
+def render_problem(rng, prob, view=None, overrides=None, whole=None):
     ov = overrides or {}
-    whole = view is None
+    whole = (view is None) if whole is None else whole
     if view is None:
         view = {"objs": {o for o, _ in prob["objs"]}, "facts": prob["facts"], "fluents": prob["fluents"],
                 "goals": prob["goals"], "ngoals": prob["ngoals"]}
@@ -450,7 +450,7 @@ def orders_for(rng, names, tier):
 
 
 def generated_directories(rng, tier):
-    ndirs = 120 if tier == "quick" else 800
+    ndirs = 120 if tier == "quick" else 500
     for k in range(ndirs):
         dom = gen_domain(rng)
         n = rng.choice([1, 2, 2, 3, 3, 4])
@@ -574,7 +574,7 @@ def exhaustive_directories(rng):
                "dfiles": {"domain-a%d.pddl" % (k + 1): render_domain(rng, TINY_DOMAIN, v) for k, v in enumerate(views)},
                "pfiles": {"problem-a%d.pddl" % (k + 1): render_problem(rng, TINY_PROBLEM, v) for k, v in enumerate(pviews)},
                "original_domain": render_domain(rng, TINY_DOMAIN, whole_view),
-               "original_problem": render_problem(rng, TINY_PROBLEM, whole_p),
+               "original_problem": render_problem(rng, TINY_PROBLEM, whole_p, whole=True),
                "conflict": None, "pconflict": None, "others": other_domains(rng), "n": 2}
 
 
@@ -601,6 +601,10 @@ def build_jobs(rng, tier):
                 job["porder"] = porder
             if d["kind"] == "exhaustive" and order is None:
                 continue        # both forced orders cover the real one
+            # structured correspondence (texts parsed by the model's parser): the first two orders of a directory
+            # (every third directory of the exhaustive scope); not for shipped fixtures (files of ~10 kB)
+            job["structured"] = bool(d["dfiles"]) and d["kind"] != "fixture" and oi <= 1 and (
+                d["kind"] != "exhaustive" or int(d["case"][1:]) % 3 == 0)
             jobs.append(job)
     return jobs
 
@@ -658,6 +662,29 @@ def pcase_lit(job, res):
         cbool("ok" not in res["pobs"] or bool(res.get("prt_same"))),
         cstrs(k for k, _ in res["default_after_problems"]["fresh"]),
         opt_lit(res.get("pexpect"), problem_lit))
+
+
+def types_agree(dumps):
+    parent = {}
+    for d in dumps:
+        if "ok" not in d:
+            continue
+        for k, chain_ in d["ok"]["types"]:
+            p = chain_.split()[0] if chain_ else ""
+            if parent.setdefault(k, p) != p:
+                return False
+    return True
+
+
+def scase_lit(job, res):
+    st = res["structured"]
+    texts = [job["dfiles"][n] for n in res["dorder"]]
+    nums = clist("(%s, %s)" % (cstr(k), chex(float.fromhex(v))) for k, v in sorted(st["nums"].items()))
+
+    def ob(key):
+        return "(Returned %s)" % cstr(st[key]) if key in st else "Raised"
+    return "(SC %s %s %d %d %s %s %s %s)" % (clist(cstr(t) for t in texts), nums, st["dpre"], st["deff"], cbool(job["dummy"]),
+                                             cbool(types_agree(res["dfiles"])), ob("vocab"), ob("rt_vocab"))
 
 
 def nontrivial_maps(dumps, sections):
@@ -727,6 +754,27 @@ def run(args):
         cross.setdefault(job.get("dir"), []).append((job, res))
     verdicts, info = run_case_shards(PROP, "Corr.C17", [c["lit"] for c in cases], shard_size=60, max_bytes=110_000)
     decide(rep, PROP, "Corr.C17", cases, verdicts, info, explain_expr="explain %s")
+    # structured correspondence: the model parses the texts itself, combines, exports (C08's exporter model), re-parses
+    scases = []
+    for job, res in zip(jobs, results):
+        if "structured" in res and "nums" in res["structured"]:
+            lit = scase_lit(job, res)
+            nt = nontrivial_maps(res["dfiles"], ("types", "consts", "preds", "funcs", "acts"))
+            for unit in ("combine", "wf", "reparse"):
+                scases.append({"lit": lit, "input": {"job": job, "part": "structured:" + unit,
+                                                     "implementation": {k: res.get(k) for k in ("structured", "dorder", "dobs", "dexport", "drt")}},
+                               "nontrivial": nt and unit == "combine", "witness_of": None})
+    if scases:
+        lits = [c["lit"] for c in scases[::3]]
+        hdr = "From Coq Require Import PrimFloat.\n"
+        sverdicts, sinfo = run_case_shards(PROP, "Corr.C17s", lits, shard_size=40, max_bytes=110_000, units=[3] * len(lits),
+                                           header_extra=hdr)
+        vc1, dn1 = dict(rep.coverage.get("verdict_counts", {})), rep.coverage.get("distinct_nontrivial", 0)
+        decide(rep, PROP, "Corr.C17s", scases, sverdicts, sinfo, explain_expr="explain %s", header_extra=hdr)
+        vc2 = rep.coverage.get("verdict_counts", {})
+        rep.coverage["verdict_counts"] = {k: vc1.get(k, 0) + vc2.get(k, 0) for k in set(vc1) | set(vc2)}
+        rep.coverage["verdict_counts_structured"] = vc2
+        rep.coverage["distinct_nontrivial"] = dn1 + rep.coverage.get("distinct_nontrivial", 0)
     # order independence observed directly: the agreeing directories give the same maps under every order
     order_groups, order_pairs = 0, 0
     for d, runs in cross.items():
@@ -811,6 +859,7 @@ def run(args):
     for j in jobs:
         kinds[j.get("kind")] = kinds.get(j.get("kind"), 0) + 1
     dist["jobs_by_kind"] = kinds
+    dist["structured_cases"] = len(scases) // 3
     dist["order_independence_groups"] = order_groups
     dist["order_independence_pairs_compared"] = order_pairs
     cov["input_distribution"] = dist
@@ -824,7 +873,9 @@ def run(args):
                    "shipped multi-agent fixture directories and hand-made witness directories (repaired findings D18/D27, files that differ "
                    "in :requirements / names) are included; thorough adds a small scope enumerated completely: all 576 ways to give the two "
                    "actions, an unused predicate, a constant and an unused type of a tiny domain to two agents and all 729 ways to give two "
-                   "facts, a fluent value, two goal literals and a numeric goal to them, each under both orders.  Each job yields a domain case and a problem case.  Non-trivial: "
+                   "facts, a fluent value, two goal literals and a numeric goal to them, each under both orders.  Each job yields a domain case and a problem case; for the first two orders of every non-fixture directory (every "
+                   "third directory of the exhaustive scope) also a structured case: the agent file TEXTS are parsed by the model's domain parser, "
+                   "combined, exported by C08's exporter model and parsed again inside Coq (3 verdict units: combine / wf / reparse).  Non-trivial: "
                    ">= 2 parsed files with a name shared by two files and a name private to one; distinct by input hash.")
     cov["samples"] = [{"files": {k: v for k, v in list(c["input"]["job"]["dfiles"].items())[:2]},
                        "order": c["input"]["implementation"].get("dorder"), "dummy": c["input"]["job"]["dummy"],
@@ -838,7 +889,7 @@ def run(args):
                           "converters and of Domain()/DEFAULT_TYPES; the model is tied to the repository by the cases above (model result "
                           "and union spec evaluated inside Coq on the implementation's per-file dumps and combined result)")
     rep.assumptions = [
-        "PDDL parsing is not modelled for this property: each per-agent file is parsed by the implementation and its vocabulary dump is the model's input (parsing is the subject of C01/C05/C06)",
+        "dump-level cases: each per-agent file is parsed by the implementation and its vocabulary dump is the model's input (parsing is the subject of C01/C05/C06); structured cases: the model's own domain parser (Model/Domain.v) reads the texts, float() of the numerals is supplied by the harness",
         "entries are compared through canonical texts produced by harness/ops_c17.py (texts longer than 110 characters through a SHA-1 digest)",
         "the order in which Path.glob enumerates a directory is observed (own glob call on the unchanged directory) or forced by wrapping Path.glob; it is a parameter of the model",
         "iteration order of hash sets (goal literals, facts) is not modelled: those observables are compared as sets",
